@@ -48,6 +48,7 @@ pub struct ServerAeadCodec {
     keys: Vec<[u8; 16]>,
     decode_state: DecodeState,
     encode_state: EncodeState,
+    established: bool,
 }
 
 impl ServerAeadCodec {
@@ -191,6 +192,7 @@ impl Decoder for ServerAeadCodec {
                         debug!("New session; {}", session);
                         let mut decoder = AEADBodyCodec::new_decoder(&header, &mut session)?;
                         let res = Self::decode_header(src, &mut header, &mut session, &mut decoder);
+                        self.established = matches!(res, Ok(Some(_)));
                         self.decode_state = DecodeState::Ready(header, session, Box::new(decoder));
                         res
                     } else {
@@ -203,8 +205,13 @@ impl Decoder for ServerAeadCodec {
             DecodeState::Ready(ref mut header, ref mut session, ref mut decoder) => {
                 if src.is_empty() {
                     Ok(None)
-                } else {
+                } else if self.established {
                     Self::decode_body(src, header, session, decoder)
+                } else {
+                    // the first chunk arrived after the header: it still has to open the flow
+                    let res = Self::decode_header(src, header, session, decoder);
+                    self.established = matches!(res, Ok(Some(_)));
+                    res
                 }
             }
         }
@@ -217,6 +224,6 @@ impl TryFrom<&ServerConfig<SslConfig>> for ServerAeadCodec {
     fn try_from(config: &ServerConfig<SslConfig>) -> Result<Self, Self::Error> {
         let uuid = config.user.iter().map(|u| &u.password).collect();
         let keys = id::from_passwords(uuid)?;
-        Ok(Self { keys, decode_state: DecodeState::Init, encode_state: EncodeState::Init })
+        Ok(Self { keys, decode_state: DecodeState::Init, encode_state: EncodeState::Init, established: false })
     }
 }
